@@ -241,7 +241,7 @@ pub fn run_schedule(roles: Vec<RoleFn>, prefix: &[usize], t_block: Duration) -> 
             // somebody is running/blocked and nobody can be released: give it time, then give up
             let t0 = Instant::now();
             let mut progressed = false;
-            while t0.elapsed() < Duration::from_secs(5) {
+            while t0.elapsed() < Duration::from_secs(30) {
                 let (g, _) = d.cv.wait_timeout(st, Duration::from_millis(50)).unwrap();
                 st = g;
                 if (0..n).any(|i| matches!(st.roles[i], RS::Parked(_))) || (0..n).all(|i| st.roles[i] == RS::Done) {
